@@ -1,4 +1,6 @@
 import SlogModel.Model.Time
+import SlogModel.Model.Parse
+import SlogModel.Gen.Facts
 import Driver.Util
 
 open Drv
@@ -25,24 +27,55 @@ def handleTime : List String → String
         s!"{showInt s} {n} {if counted then 1 else 0}"
   | _ => "bad-op"
 
-def handle (line : String) : String :=
-  match fields line with
-  | "time" :: rest => handleTime rest
-  | _ => "bad-op"
+structure DState where
+  parseCfg : Parse.Cfg := { facilities := Facts.facility_names.map str, levels := Facts.severity_names.map str,
+                            maxMsg := Facts.defs_InputLogMaxMessageBytes.getD 0,
+                            maxRec := Facts.defs_InputLogMaxRecordBytes.getD 0,
+                            minLen := Facts.parse_min_len.getD 0 }
 
-partial def loop (hin hout : IO.FS.Stream) : IO Unit := do
+def unhexAll (hs : List String) : Option (List Bytes) := hs.mapM unhex
+
+def handleParse (st : DState) : List String → DState × String
+  | "cfg" :: maxMsg :: maxRec :: levels =>
+    match maxMsg.toNat?, maxRec.toNat?, unhexAll levels with
+    | some m, some r, some lv => ({ st with parseCfg := { st.parseCfg with maxMsg := m, maxRec := r, levels := lv } }, "ok")
+    | _, _, _ => (st, "bad-op")
+  | ["line", h] =>
+    match unhex h with
+    | none => (st, "bad-op")
+    | some bs =>
+      match Parse.parseGo st.parseCfg bs with
+      | .error p => (st, s!"panic {p.name}")
+      | .ok o =>
+        let c := Parse.counts bs.length o
+        let cs := s!" c={c.passed},{c.passedBytes},{c.dropped},{c.droppedBytes},{c.overflow},{c.overflowBytes}"
+        match o with
+        | .drop _ => (st, "drop" ++ cs)
+        | .pass r ov =>
+          (st, s!"pass {hex r.facility} {hex r.level} {hex r.time} {hex r.host} {hex r.app} {hex r.pid} {hex r.source} {hex r.extradata} {hex r.log} {if r.unescaped then 1 else 0} {if ov then 1 else 0}" ++ cs)
+  | _ => (st, "bad-op")
+
+def handle (st : DState) (line : String) : DState × String :=
+  match fields line with
+  | "time" :: rest => (st, handleTime rest)
+  | "parse" :: rest => handleParse st rest
+  | _ => (st, "bad-op")
+
+partial def loop (hin hout : IO.FS.Stream) (st : DState) : IO Unit := do
   let line ← hin.getLine
   if line.isEmpty then return ()
   let line := (line.dropEndWhile (fun c => c == '\n' || c == '\r')).toString
   if line == "sync" then
     hout.putStrLn "sync"
     hout.flush
+    loop hin hout st
   else
-    hout.putStrLn (handle line)
-  loop hin hout
+    let (st', out) := handle st line
+    hout.putStrLn out
+    loop hin hout st'
 
 def main : IO Unit := do
   let hin ← IO.getStdin
   let hout ← IO.getStdout
-  loop hin hout
+  loop hin hout {}
   hout.flush
